@@ -345,3 +345,77 @@ def cases(tier):
         cs += [SegTree(8, "min"), SegTree(16, "sum"), PerAdd(6, 4), PerAdd(8, 3), PerAdd(7, 7, "one"),
                PerUpdate(4, 3), PerUpdate(6, 2), PerSample(6, 2), PerSample(8, 2), PerSample(5, 3)]
     return cs
+
+
+# --------------------------------------------------------------------------- floating-point mode (IEEE doubles)
+
+from symx.fp import new_fp, finite_in, feq, SFloat
+
+
+class SegTreeFP(Case):
+    """SumSegmentTree.__setitem__ on IEEE-754 doubles (z3 FloatingPoint, round-nearest-even): after ANY sequence position
+    (one update from a tree that is consistent in floating point) every internal node is again the ROUNDED sum of its two
+    children, i.e. the running total is the pairwise summation of the stored priorities — a direct computation over them —
+    and not an accumulation of deltas."""
+    functions = (SegmentTree.__setitem__, SumSegmentTree.sum)
+    assumptions = ("leaves and the written value are finite doubles in [0, 1e150] (no overflow, no NaN)",
+                   "pre-state consistent in floating point: every internal node = fl(left + right)")
+    outside = ("retrieve() on doubles (a query mass within one ulp of the total can end on an empty leaf; unreachable for float32 variates)",)
+    site = "SumSegmentTree.__setitem__/floating-point"
+
+    def __init__(self, cap, updates=1):
+        self.cap, self.updates = cap, updates
+        self.name = f"segtree-sum-fp-cap{cap}-updates{updates}"
+        self.bounds = {"tree_capacity": cap, "consecutive_updates": updates, "number_domain": "IEEE-754 binary64, round-nearest-even",
+                       "symbolic": "every leaf, the index written, the value written"}
+
+    def run(self, v):
+        cap = self.cap
+        tree = SumSegmentTree(cap)
+        require(tree, "tree", "capacity", "operation")
+        leaves = [new_fp(v, f"leaf{i}") for i in range(cap)]
+        for x in leaves:
+            v.assume(finite_in(x, 0.0, 1e150))
+        for i in range(cap):
+            tree.tree[cap + i] = leaves[i]
+        for i in range(cap - 1, 0, -1):
+            tree.tree[i] = tree.tree[2 * i] + tree.tree[2 * i + 1]
+        cur = list(leaves)
+        for u in range(self.updates):
+            idx = v.int(f"idx{u}")
+            v.assume(conj(idx >= 0, idx < cap))
+            x = new_fp(v, f"x{u}")
+            v.assume(finite_in(x, 0.0, 1e150))
+            i = cint(v, idx)
+            tree[i] = x
+            cur[i] = x
+        obs = []
+        for i in range(1, cap):
+            obs.append(Ob(f"node{i}-is-the-rounded-sum-of-its-children", feq(tree.tree[i], tree.tree[2 * i] + tree.tree[2 * i + 1])))
+        for i in range(cap):
+            obs.append(Ob(f"leaf{i}-holds-the-value-last-written", feq(tree.tree[cap + i], cur[i])))
+        # pairwise summation of the stored priorities, computed directly
+        level = list(cur)
+        while len(level) > 1:
+            level = [level[k] + level[k + 1] for k in range(0, len(level), 2)]
+        obs.append(Ob("total-is-the-pairwise-sum-of-the-stored-priorities", feq(tree.sum(), level[0])))
+        obs.append(Ob("twin/total-is-unchanged-by-the-update", feq(tree.sum(), _pairwise(leaves)), expect="sat"))
+        return obs
+
+
+def _pairwise(xs):
+    level = list(xs)
+    while len(level) > 1:
+        level = [level[k] + level[k + 1] for k in range(0, len(level), 2)]
+    return level[0]
+
+
+_cases_real = cases
+
+
+def cases(tier):   # noqa: F811
+    cs = _cases_real(tier)
+    cs += [SegTreeFP(2), SegTreeFP(4), SegTreeFP(4, updates=2)]
+    if tier == "thorough":
+        cs += [SegTreeFP(8), SegTreeFP(8, updates=2)]
+    return cs
